@@ -7,6 +7,8 @@ import (
 	"fmt"
 	"io"
 	"os"
+
+	"github.com/klev-dev/klevdb/pkg/verifhook"
 )
 
 var (
@@ -108,6 +110,7 @@ func OpenWriter(path string, offset int64, newVersion Version, opts Params) (w *
 	if err != nil {
 		return nil, fmt.Errorf("write index stat: %w", err)
 	}
+	verifhook.FS("open", path, stat.Size(), 0)
 
 	pos := stat.Size()
 	var v Version
@@ -119,6 +122,7 @@ func OpenWriter(path string, offset int64, newVersion Version, opts Params) (w *
 		if _, err := f.Write(h[:]); err != nil {
 			return nil, fmt.Errorf("write index header: %w", err)
 		}
+		verifhook.FS("header", path, int64(len(h)), 0)
 		pos = int64(len(h))
 		v = newVersion
 	} else {
@@ -170,6 +174,7 @@ func (w *Writer) writeBase(it Item) error {
 		return fmt.Errorf("write index: %w", err)
 	} else {
 		w.pos += int64(n)
+		verifhook.FS("append", w.f.Name(), int64(n), 0)
 	}
 
 	return nil
@@ -184,6 +189,7 @@ func (w *Writer) writeTimes(it Item) error {
 		return fmt.Errorf("write index: %w", err)
 	} else {
 		w.pos += int64(n)
+		verifhook.FS("append", w.f.Name(), int64(n), 0)
 	}
 
 	return nil
@@ -198,6 +204,7 @@ func (w *Writer) writeKeys(it Item) error {
 		return fmt.Errorf("write index: %w", err)
 	} else {
 		w.pos += int64(n)
+		verifhook.FS("append", w.f.Name(), int64(n), 0)
 	}
 
 	return nil
@@ -213,6 +220,7 @@ func (w *Writer) writeFull(it Item) error {
 		return fmt.Errorf("write index: %w", err)
 	} else {
 		w.pos += int64(n)
+		verifhook.FS("append", w.f.Name(), int64(n), 0)
 	}
 
 	return nil
@@ -226,6 +234,7 @@ func (w *Writer) Sync() error {
 	if err := w.f.Sync(); err != nil {
 		return fmt.Errorf("write index sync: %w", err)
 	}
+	verifhook.FS("fsync", w.f.Name(), 0, 0)
 	return nil
 }
 
